@@ -385,20 +385,20 @@ PLANS = {
                 ["flow_t", "flow_treasury_t", "fees_t"] + IBC_EMIT, W_Q, W_T, reach=["Received"], scen=["KF2"]),
     "C03": plan(["flow_q", "ibc_q", "same_q", "sender_q"], FLOW_MC + IBC_MC + ["same_t", "sender_q"], ["flow_q", "ibc_q", "same_q", "sender_q"], FLOW_EMIT + IBC_EMIT + ["same_t"], W_Q, W_T),
     "C04": plan(["flow_q"], FLOW_MC, ["flow_q"], ["flow_extras_t", "flow_t"], W_Q, W_T),
-    "C05": plan(["flow_q"], FLOW_MC, ["flow_q"], FLOW_EMIT, W_Q, W_T, reach=["Received"]),
+    "C05": plan(["flow_q", "dust_q"], FLOW_MC + ["dust_q"], ["flow_q", "dust_q"], FLOW_EMIT + ["dust_q"], W_Q, W_T, reach=["Received"]),
     "C06": plan(["flow_q"], FLOW_MC, ["flow_q"], FLOW_EMIT, W_Q, W_T, reach=["Received"]),
     "C07": plan(["ibc_q"], IBC_MC, ["ibc_q"], IBC_EMIT + ["ibc_q"], W_Q, W_T, reach=["Refundable"], scen=["KF2"]),
     "C08": plan(["gate_q", "own"], GATE_MC + ["own_t"], ["gate_q", "own"], GATE_EMIT + ["own_t"], W_Q, W_T),
-    "C09": plan(["gate_q"], GATE_MC, ["gate_q"], GATE_EMIT, W_Q, W_T, scen=["C09"]),
+    "C09": plan(["gates_q"], GATE_MC, ["gates_q"], GATE_EMIT, W_Q, W_T, scen=["C09"]),
     "C10": plan(["gate_q"], GATE_MC, ["gate_q"], GATE_EMIT, W_Q, W_T),
     "C11": plan(["flow_q", "flow_treasury_q", "fees_q", "fee150_q"], ["flow_t", "flow_treasury_t", "flow_amounts_t", "fees_t", "fee150_q"],
                 ["flow_treasury_q", "fees_q", "fee150_q"], ["flow_t", "flow_treasury_t", "fees_t", "fee150_q"], W_Q, W_T),
     "C12": plan(["own"], ["own_t"], ["own"], ["own_t"], [("admin", 10, 60)], [("admin", 150, 70)]),
     "C13": plan(["treasury_q", "flow_treasury_q"], ["treasury_t", "flow_treasury_q"], ["treasury_q", "flow_treasury_q"], ["treasury_t", "flow_treasury_q"], [], []),
-    "C14": plan(["gate_q"], ["gateadmin_t"], [], ["gateadmin_t"], [("admin", 8, 60)], [("admin", 100, 70)]),
+    "C14": plan(["gates_q"], ["gateadmin_t"], [], ["gateadmin_t"], [("admin", 8, 60)], [("admin", 100, 70)]),
     "C15": plan(["flow_q", "flow_treasury_q"], ["flow_t", "flow_treasury_t", "flow_amounts_t", "flow_resume_t"], ["flow_q", "flow_treasury_q"],
                 ["flow_t", "flow_treasury_t", "flow_extras_t"], W_Q, W_T),
-    "C16": plan(["flow_q", "gate_q"], FLOW_MC + IBC_MC + GATE_MC, ["flow_treasury_q", "ibc_q", "gate_q", "own", "treasury_q"],
+    "C16": plan(["flow_q", "gates_q"], FLOW_MC + IBC_MC + GATE_MC, ["flow_treasury_q", "ibc_q", "gates_q", "own", "treasury_q"],
                 ["flow_t", "flow_treasury_t", "flow_extras_t", "ibc2_t", "gate_q", "gateadmin_t", "own_t", "treasury_q"], W_Q, W_T,
                 wide={"quick": [(30, 60, 0), (30, 60, 1)], "thorough": [(400, 80, 0), (400, 80, 1)]}),
     "C17": plan(["flow_q"], ["flow_t"], [], [], [("chaos", 6, 60)], [("chaos", 60, 70)]),
